@@ -250,6 +250,14 @@ class Compiler:
         """True if the labelled statement's body is a loop (which owns the label)."""
         return bool(getattr(ctx, "labels_loop", False))
 
+    @staticmethod
+    def _syntax_error(message: str, node: Node) -> JSSyntaxError:
+        """A syntax error found at compile time, positioned at the statement."""
+        loc = getattr(node, "loc", None)
+        if loc is not None:
+            return JSSyntaxError(message, loc.line, loc.column)
+        return JSSyntaxError(message)
+
     def _take_labels(self) -> List[str]:
         """Labels written directly in front of the loop being compiled."""
         labels, self._pending_labels = self._pending_labels, []
@@ -729,9 +737,9 @@ class Compiler:
 
             if ctx is None:
                 if target_label:
-                    raise JSSyntaxError(f"label '{target_label}' not found")
+                    raise self._syntax_error(f"label '{target_label}' not found", node)
                 else:
-                    raise JSSyntaxError("'break' outside of loop")
+                    raise self._syntax_error("'break' outside of loop", node)
 
             # TRY_END / finally blocks / operand slots of what the break crosses
             self._emit_exit_cleanup(ctx)
@@ -752,8 +760,8 @@ class Compiler:
                         and loop_ctx.label == target_label
                         and not self._label_on_loop(loop_ctx)
                     ):
-                        raise JSSyntaxError(
-                            f"label '{target_label}' does not denote a loop"
+                        raise self._syntax_error(
+                            f"label '{target_label}' does not denote a loop", node
                         )
                     continue
                 if target_label is None or target_label in loop_ctx.labels:
@@ -762,9 +770,9 @@ class Compiler:
 
             if ctx is None:
                 if target_label:
-                    raise JSSyntaxError(f"label '{target_label}' not found")
+                    raise self._syntax_error(f"label '{target_label}' not found", node)
                 else:
-                    raise JSSyntaxError("'continue' outside of loop")
+                    raise self._syntax_error("'continue' outside of loop", node)
 
             self._emit_exit_cleanup(ctx)
 
